@@ -327,6 +327,7 @@ def gen_history(rng, nmax=6, with_regen=False, ninv=None, with_pools=False):
     outs_flat = [o for os_ in info["outs_all"] for o in os_]
     ninv = ninv or rng.randint(2, 5)
     for r in range(ninv):
+        new_target = None
         if r > 0:
             for _ in range(rng.randint(0, 3)):
                 c = rng.random()
@@ -397,6 +398,8 @@ def gen_history(rng, nmax=6, with_regen=False, ninv=None, with_pools=False):
                         info["builds"].insert(0, {"outs": ["x%d" % k_, "x%d.aux" % k_], "ex": [rng.choice(info["sources"])], "im": [], "oo": [],
                                                   "opts": [], "tag": "x", "extra": True})
                         info["outs_all"].insert(0, ["x%d" % k_, "x%d.aux" % k_])
+                        if rng.random() < 0.5:
+                            new_target = "x%d" % k_        # ask, in this very invocation, for what only the regenerated text declares
                     outs_flat[:] = [o for os_ in info["outs_all"] for o in os_]
                     text = manifest_text(info)
                     put("rules.in" if with_regen == "include" else "manifest.in", text)
@@ -414,6 +417,8 @@ def gen_history(rng, nmax=6, with_regen=False, ninv=None, with_pools=False):
             targets = [respell_path(rng, t) if rng.random() < 0.6 else t for t in targets]     # the command line spells them differently
         if with_regen and rng.random() < 0.08:
             targets = ["build.ninja"]
+        if new_target:
+            targets = [new_target] + targets[:1]
         script = S.gen_script(rng, rng.randint(0, 8), fail_rate=rng.choice([0, 0, 0, 0.2]), interrupt_rate=rng.choice([0, 0, 0.05]))
         steps.append(S.inv_cmd(j, k, False, targets, script, manifest=mspell))
         invs.append({"j": j, "k": k, "adopt": False, "targets": targets, "files": dict(files), "nsteps": len(steps), "manifest": mspell})
